@@ -42,7 +42,7 @@ func genC14(t *rapid.T) C14Case {
 	n := rapid.IntRange(1, 14).Draw(t, "nops")
 	for i := 0; i < n; i++ {
 		op := C14Op{}
-		switch k := kit.Uniform(t, 27, "opkind"); {
+		switch k := kit.Uniform(t, 28, "opkind"); {
 		case k < 5:
 			op.Op = "submit1"
 		case k < 11:
@@ -57,6 +57,11 @@ func genC14(t *rapid.T) C14Case {
 		case k < 22:
 			op.Op = "parents"
 			op.IDSel = rapid.IntRange(0, 7).Draw(t, "which")
+		case k == 26:
+			// a set built on a block that is then reorganised away
+			op.Op = "staleforkset"
+			op.Mut = rapid.IntRange(0, 3).Draw(t, "variant")
+			op.IDSel = rapid.IntRange(0, 7).Draw(t, "who")
 		case k < 24:
 			// a block confirming part of the pool and, as the very next pool
 			// access, a set that conflicts with a surviving pool member
@@ -624,6 +629,120 @@ func runC14(c C14Case, cs *kit.CaseStats) error {
 				}
 			}
 
+		case "staleforkset":
+			// block b1 on the tip confirms a payment; a set is built with basis b1:
+			// an independent payment A and a transaction X spending the output b1
+			// confirmed; b1 is reorganised away by two empty blocks; then the set is
+			// submitted with its (now stale, foreign) basis. All or nothing.
+			if L.Height()+1 < tr.Network.HardforkV2.AllowHeight {
+				continue
+			}
+			who := op.IDSel % kit.NumActors
+			bb := kit.NewBlockBuilder(L)
+			bb.Absorb(before.v1, before.v2)
+			bb.DropEphemeral()
+			if !bb.Add(kit.Intent{Kind: "pay", V2: true, Who: who, To: (who + 1) % kit.NumActors, Pick: oi, Amt: 4}) || len(bb.V2Txns) == 0 {
+				continue
+			}
+			pay := bb.V2Txns[len(bb.V2Txns)-1]
+			salt++
+			b1 := kit.AssembleBlock(L.State, L.Block.Timestamp.Add(1e9), kit.Actors[0].Addr, nil, []types.V2Transaction{pay}, salt)
+			l1, err := L.Apply(b1, nil)
+			if err != nil {
+				continue
+			}
+			// the element b1 created for the payee
+			var made *types.SiacoinElement
+			for k := range pay.SiacoinOutputs {
+				if e, ok := l1.SCE[pay.SiacoinOutputID(pay.ID(), k)]; ok && kit.ActorOf(e.SiacoinOutput.Address) >= 0 {
+					e = e.Copy()
+					made = &e
+					break
+				}
+			}
+			if made == nil {
+				continue
+			}
+			if err := node.CM.AddBlocks([]types.Block{b1}); err != nil {
+				return fmt.Errorf("%s: block accepted by the reference was rejected: %v", where, err)
+			}
+			owner := kit.ActorOf(made.SiacoinOutput.Address)
+			x := types.V2Transaction{SiacoinInputs: []types.V2SiacoinInput{{Parent: *made}}, SiacoinOutputs: []types.SiacoinOutput{{Address: kit.Actors[(owner+2)%kit.NumActors].Addr, Value: made.SiacoinOutput.Value}}, ArbitraryData: []byte(fmt.Sprintf("stale-%d", oi))}
+			kit.SignV2(l1.State, &x)
+			bb2 := kit.NewBlockBuilder(l1)
+			pool1, pool2 := node.CM.PoolTransactions(), node.CM.V2PoolTransactions()
+			bb2.Absorb(pool1, pool2)
+			bb2.Absorb(nil, []types.V2Transaction{x})
+			bb2.DropEphemeral()
+			var set2 []types.V2Transaction
+			if op.Mut%2 == 0 && bb2.Add(kit.Intent{Kind: "pay", V2: true, Who: (who + 2) % kit.NumActors, To: who, Pick: oi + 1, Amt: 3}) {
+				set2 = append(set2, bb2.V2Txns[len(bb2.V2Txns)-1])
+			}
+			if op.Mut >= 2 {
+				set2 = append([]types.V2Transaction{x}, set2...)
+			} else {
+				set2 = append(set2, x)
+			}
+			// two empty blocks on the old tip replace b1
+			salt++
+			b1p := kit.AssembleBlock(L.State, L.Block.Timestamp.Add(2e9), kit.Actors[1].Addr, nil, nil, salt)
+			l1p, err := L.Apply(b1p, nil)
+			if err != nil {
+				return fmt.Errorf("INFRA: cannot mine: %v", err)
+			}
+			salt++
+			b2p := kit.AssembleBlock(l1p.State, l1p.Block.Timestamp.Add(1e9), kit.Actors[2].Addr, nil, nil, salt)
+			l2p, err := l1p.Apply(b2p, nil)
+			if err != nil {
+				return fmt.Errorf("INFRA: cannot mine: %v", err)
+			}
+			if err := node.CM.AddBlocks([]types.Block{b1p, b2p}); err != nil {
+				return fmt.Errorf("%s: competing branch accepted by the reference was rejected: %v", where, err)
+			}
+			if node.CM.Tip() != l2p.Index() {
+				// not heavier enough: stay on b1's chain
+				L = l1
+				for _, t := range []types.V2Transaction{pay} {
+					confirmed = append(confirmed, t.ID())
+				}
+				cs.Class("staleforkset:no-reorg")
+				continue
+			}
+			L = l2p
+			pre := viewPool(node)
+			allKnown := true
+			for _, t := range set2 {
+				if _, ok := pre.ids2[t.ID()]; !ok {
+					allKnown = false
+				}
+			}
+			callerEnc := encV2s(set2)
+			knownRet, serr := node.CM.AddV2PoolTransactions(l1.Index(), set2)
+			if !sameEnc(callerEnc, encV2s(set2)) {
+				return fmt.Errorf("%s: AddV2PoolTransactions modified the caller's transactions", where)
+			}
+			post := viewPool(node)
+			where = fmt.Sprintf("%s: %d-member set built on %v (a block since reorganised away; one member spends an output that block confirmed), submitted with that basis on tip %v -> known=%v err=%v", where, len(set2), l1.Index(), L.Index(), knownRet, serr)
+			cs.Class("set-with-basis-on-a-reverted-block")
+			cs.NonTrivial()
+			if serr != nil {
+				if knownRet {
+					return fmt.Errorf("%s: known=true together with an error", where)
+				}
+				if fmt.Sprint(pre.idList()) != fmt.Sprint(post.idList()) {
+					return fmt.Errorf("%s: the set was rejected but the pool changed:\n before %v\n after  %v", where, pre.idList(), post.idList())
+				}
+			} else {
+				for i, t := range set2 {
+					if _, ok := post.ids2[t.ID()]; !ok {
+						return fmt.Errorf("%s: no error, but member %d (%v) is not in the pool", where, i, t.ID())
+					}
+				}
+				if knownRet != allKnown {
+					return fmt.Errorf("%s: known=%v but 'every transaction already pooled'=%v", where, knownRet, allKnown)
+				}
+			}
+
 		case "mineconflict":
 			v2 := op.IDKind%4 != 0
 			if v2 && L.Height()+2 < tr.Network.HardforkV2.AllowHeight || !v2 && L.Height()+2 >= tr.Network.HardforkV2.RequireHeight {
@@ -823,7 +942,7 @@ func listedAreRetrievable(n *kit.Node) error {
 
 var c14Prop = kit.Prop[C14Case]{
 	ID:   "C14",
-	Rule: "stateful sequences (1..14 ops) over one manager on a short base chain in three regimes (v1+v2 overlap, v2 only, v1 only): submit v1 / v2 sets built against the tip's reference ledger (fresh, with a prefix of already pooled transactions, with a member that is valid against the tip but double-spends a pooled input at a drawn position, with a member carrying an invalid signature at a drawn position), look up ids drawn from pooled v1, pooled v2, confirmed and random ids through BOTH lookup calls, mutate and reorder everything pool queries return, scribble over submitted v2 transactions, mine the pool or a prefix of it, and 'mineconflict': a block confirming a prefix of the pool followed, with no pool query in between, by a set one of whose members double-spends an input of a surviving pool member (must be rejected as a whole, survivors stay). Oracle: rejected ⇒ pool id set unchanged; accepted ⇒ superset containing every member; known ⇔ every member was pooled before; lookups return exactly the pooled transaction of that kind or absence; no mutation of returned or submitted values is visible in a fresh query. Non-trivial = a pool-conflicting member at position >= 2, or a lookup on a pool holding both kinds; distinct by hash of the case.",
+	Rule: "stateful sequences (1..14 ops) over one manager on a short base chain in three regimes (v1+v2 overlap, v2 only, v1 only): submit v1 / v2 sets built against the tip's reference ledger (fresh, with a prefix of already pooled transactions, with a member that is valid against the tip but double-spends a pooled input at a drawn position, with a member carrying an invalid signature at a drawn position), look up ids drawn from pooled v1, pooled v2, confirmed and random ids through BOTH lookup calls, mutate and reorder everything pool queries return, scribble over submitted v2 transactions, mine the pool or a prefix of it, and 'mineconflict': a block confirming a prefix of the pool followed, with no pool query in between, by a set one of whose members double-spends an input of a surviving pool member (must be rejected as a whole, survivors stay), and 'staleforkset': a set built on a block that is then reorganised away, one member spending an output only that block confirmed, submitted with that basis (all or nothing; known only if all were pooled). Oracle: rejected ⇒ pool id set unchanged; accepted ⇒ superset containing every member; known ⇔ every member was pooled before; lookups return exactly the pooled transaction of that kind or absence; no mutation of returned or submitted values is visible in a fresh query. Non-trivial = a pool-conflicting member at position >= 2, or a lookup on a pool holding both kinds; distinct by hash of the case.",
 	Assumptions: []string{
 		"sets respect the documented precondition: an element that is not on chain is created by an earlier member of the same set",
 		"pools stay far below the 10-block weight limit (eviction belongs to C05)",
